@@ -63,13 +63,16 @@ def gen_value(rng, tag, key):
     return special[0], (special[0] if special[1] is None else special[1])
 
 
-def gen_vars(rng, tag, nmax, meta_description=None, section_prefix=False):
-    """A [variables] section: list of [key, raw, value]."""
+def gen_vars(rng, tag, nmax, meta_description=None, section_prefix=False, hot=()):
+    """A [variables] section: list of [key, raw, value]. `hot`: the keys this case makes every level fight over."""
     n = rng.choice([0, 1, 2, 3, nmax])
     pool = IDENT_KEYS + DOTTED_KEYS
     keys = []
     for _ in range(n):
-        k = rng.choice(PROTECTED) if rng.random() < 0.22 else rng.choice(pool)
+        if hot and rng.random() < 0.6:
+            k = rng.choice(hot)
+        else:
+            k = rng.choice(PROTECTED) if rng.random() < 0.22 else rng.choice(pool)
         if k not in keys:
             keys.append(k)
     out = []
@@ -95,8 +98,8 @@ def gen_vars(rng, tag, nmax, meta_description=None, section_prefix=False):
     return out, feats
 
 
-def gen_text(rng):
-    keys = IDENT_KEYS + PROTECTED + ["never_defined"]
+def gen_text(rng, hot=()):
+    keys = IDENT_KEYS + PROTECTED + ["never_defined"] + [k for k in hot if "." not in k] * 4
     nl = "\r\n" if rng.random() < 0.08 else "\n"
     lines = []
     for _ in range(rng.randint(0, 5) if rng.random() < 0.9 else 0):
@@ -132,21 +135,24 @@ def gen_case(rng, tier="quick"):
     feats = set()
     nbases = rng.choice([1, 2, 2, 3, 3, 4])
     base_names = rng.sample(BASE_NAMES, nbases)
+    hot = rng.sample(IDENT_KEYS + DOTTED_KEYS, 3) + rng.sample(PROTECTED, 1)
+    hot_text, hot_bin = rng.sample(TEXT_FILES, 2), rng.sample(BIN_FILES, 1)
     bases = {}
     for b in base_names:
         tag = "B(%s)" % b
         if rng.random() < 0.85:
-            bvars, f = gen_vars(rng, tag, 5, section_prefix=rng.random() < 0.5)
+            bvars, f = gen_vars(rng, tag, 5, section_prefix=rng.random() < 0.5, hot=hot)
             feats |= f
         else:
             bvars = None
         if rng.random() < 0.92:
             templates = {}
-            for _ in range(rng.choice([0, 1, 2, 3, 4, 5])):
+            nfiles = rng.randint(6, 12) if (tier == "thorough" and rng.random() < 0.1) else rng.choice([0, 1, 2, 3, 4, 5])
+            for _ in range(nfiles):
                 if rng.random() < 0.68:
-                    templates[rng.choice(TEXT_FILES)] = {"t": gen_text(rng)}
+                    templates[rng.choice(hot_text if rng.random() < 0.5 else TEXT_FILES)] = {"t": gen_text(rng, hot)}
                 else:
-                    templates[rng.choice(BIN_FILES)] = {"b": gen_bin(rng).hex()}
+                    templates[rng.choice(hot_bin if rng.random() < 0.4 else BIN_FILES)] = {"b": gen_bin(rng).hex()}
         else:
             templates = None
         emptydirs = ["config/empty.d"] if rng.random() < 0.1 and templates is not None else []
@@ -165,7 +171,7 @@ def gen_case(rng, tier="quick"):
         if nb == 0 and rng.random() < 0.5:
             cb = None  # no [config] section at all
         if rng.random() < 0.9:
-            cvars, f = gen_vars(rng, tag, 5, meta_description=(meta or {}).get("description"))
+            cvars, f = gen_vars(rng, tag, 5, meta_description=(meta or {}).get("description"), hot=hot)
             feats |= f
         else:
             cvars = None
@@ -177,6 +183,9 @@ def gen_case(rng, tier="quick"):
     if not any(cars[n]["bases"] for n in names):
         cars[names[rng.randrange(len(names))]]["bases"] = [rng.choice(base_names)]
 
+    # (a list written as "base = a, b" with a blank after the comma is NOT generated: docs/car.rst only documents the comma-separated
+    #  form and the property does not promise that blanks are stripped - see DESIGN.md, decisions against reporting)
+
     # --car-params
     params = None
     r = rng.random()
@@ -185,7 +194,7 @@ def gen_case(rng, tier="quick"):
     elif r < 0.8:
         params = {}
         for _ in range(rng.randint(1, 4)):
-            key = rng.choice(PROTECTED) if rng.random() < 0.2 else rng.choice(IDENT_KEYS + DOTTED_KEYS)
+            key = rng.choice(hot) if rng.random() < 0.5 else (rng.choice(PROTECTED) if rng.random() < 0.2 else rng.choice(IDENT_KEYS + DOTTED_KEYS))
             if key in PROTECTED:
                 params[key] = rng.choice(["HIJACK-P", 1, "HIJACK-P"])
             else:
@@ -194,7 +203,7 @@ def gen_case(rng, tier="quick"):
     # the two variables the provisioner insists on: make sure the composition defines them somewhere (any level)
     def define(key):
         nonlocal params
-        used_bases = [b for n in names for b in (cars[n]["bases"] or [])]
+        used_bases = [b.strip() for n in names for b in (cars[n]["bases"] or [])]
         level = rng.choice(["base", "car", "params"])
         raw, value = gen_value(rng, "req", key)
         if level == "params":
@@ -251,11 +260,11 @@ def gen_case(rng, tier="quick"):
     else:
         cands = [home + "/mydata", home + "/data", home + "/var/lib/d", install + "/sibling-data", "@ROOT@/races/%s/node-data" % node_name,
                  "@ROOT@/ext/d1", "@ROOT@/ext/d1/sub", "@ROOT@/ext/d 2", "@ROOT@/other/deep/er/d3"]
-        if rng.random() < 0.04:
+        if rng.random() < 0.025:
             links["@ROOT@/ext/link-to-data"] = "@ROOT@/mnt/real-data"
             cands = ["@ROOT@/ext/link-to-data"]
         levels = rng.sample(["params", "car", "base"], rng.choice([1, 1, 2, 3]))
-        used_bases = [b for n in names for b in (cars[n]["bases"] or [])]
+        used_bases = [b.strip() for n in names for b in (cars[n]["bases"] or [])]
         for level in levels:
             if level == "params":
                 params = dict(params or {})
@@ -278,7 +287,18 @@ def gen_case(rng, tier="quick"):
             prepop[rel] = bytes(rng.randrange(256) for _ in range(rng.randint(0, 6))).hex()
     if rng.random() < 0.02:
         # hostile: unrelated content whose name happens to start with "elasticsearch"
-        prepop[rng.choice(["install/elasticsearch.log", "install/elasticsearch-0.9-old/keep.txt", "install/elasticsearch_backup/x.yml"])] = b"old".hex()
+        kind = rng.choice(["file", "dir", "dir2", "old-installation"])
+        if kind == "file":
+            prepop["install/elasticsearch.log"] = b"old".hex()
+        elif kind == "dir":
+            prepop["install/elasticsearch-0.9-old/keep.txt"] = b"old".hex()
+        elif kind == "dir2":
+            prepop["install/elasticsearch_backup/x.yml"] = b"old".hex()
+        else:
+            # what an earlier race with the same race id and --preserve-install leaves behind
+            prepop["install/elasticsearch-6.8.0/config/elasticsearch.yml"] = b"cluster.name: earlier-race\n".hex()
+            prepop["install/elasticsearch-6.8.0/lib/elasticsearch.jar"] = b"old-jar".hex()
+            prepop["install/elasticsearch-6.8.0/bin/elasticsearch"] = b"#!/bin/sh\n".hex()
     spec = {
         "bases": bases, "cars": cars, "names": names, "params": params, "node": node, "dist": dist, "prepop": prepop, "links": links,
         "preserve_first": rng.random() < 0.7, "via_node_config_file": rng.random() < 0.4,
